@@ -3,6 +3,7 @@ package props
 import (
 	"bytes"
 	"fmt"
+	"sort"
 
 	ike "github.com/free5gc/ike"
 	"github.com/free5gc/ike/eap"
@@ -637,6 +638,25 @@ func c13(c *core.Ctx) {
 		}
 		c13One(k, base, ins, pos, nil, "long-run")
 		k.Count("long_runs_of_unsupported_payloads", 1)
+	})
+	// chains with MANY payloads (the count crosses 8-bit and 9-bit limits) of which one or a few are unsupported, at any
+	// position: implemented and unsupported payloads together make up the count
+	c.Family("many-payloads", c.N(48, 2400), func(k *core.Case) {
+		n := []int{200, 253, 254, 255, 256, 257, 300, 510, 511, 512, 513, 700}[k.Index%12]
+		base := gen.Header(k.R)
+		for i := 0; i < n; i++ {
+			base.Payloads = append(base.Payloads, abs.Payload{Kind: abs.PNotify, Notify: &abs.Notify{Proto: 0, Type: uint16(16384 + i)}})
+		}
+		cnt := 1 + k.Index/12%3
+		var ins []abs.Payload
+		var pos []int
+		for i := 0; i < cnt; i++ {
+			ins = append(ins, abs.Payload{Kind: types[k.R.Intn(len(types))], Data: k.R.Bytes(k.R.Pick(0, 1, 8)), Crit: k.Index/36%2 == 1 && i == cnt-1})
+			pos = append(pos, []int{0, n / 2, n}[(k.Index/12+i)%3])
+		}
+		sort.Ints(pos)
+		c13One(k, base, ins, pos, nil, "many-payloads")
+		k.Count("chains_with_many_payloads", 1)
 	})
 	// unsupported payloads in front of the Encrypted payload of a protected message (cleartext, covered by the checksum):
 	// unprotection must give exactly the message without them, or an error if any is critical
